@@ -6,6 +6,9 @@ CHECKS = {
  "C12": dict(cat="model_checking", tech="TLA+ successor-machine calendar (TLC exhaustive, 72 684 states) + trace validation of the real converters over every day/format/separator/century split",
    text="Design level: TLC checks the literal transcription of the code's closed forms against a successor-machine calendar on all 72 684 days. Conformance: the real DateConverter/KalenderConverter/KalenderDate are driven over every calendar day for all four formats, with and without separator (quick: long formats in full + 4 century splits; thorough: all 101 splits) and TLC validates every line against the machine (number, day of year, back conversion, rendered text, leap days). Exhaustive enumeration of a finite domain is the right level for a total function on 72 684 dates.",
    note="Trusted: TLC + Json module, Go toolchain, the worker's fixed-position split of rendered date text into three integers. The worker's own calendar (Go time package) is itself checked against the machine.", ref="§8 C12"),
+ "C17": dict(cat="model_checking", tech="TLA+ transcription of the calculator's slice arithmetic and the simulator's -lines window (TLC exhaustive over L,K) + trace validation of the real calculator output for all (L,K) in the bound and of real hermes2go launches per printed range",
+   text="Design level: TLC checks Partition.tla (calculator arithmetic composed with the simulator's window semantics) for all L,K <= 40 (thorough 80). Conformance: the real calcHermesBatch is executed for every (L,K) <= 30 (thorough 60) and five line-ending/blank-line variants, its stdout is the trace; for (L,K) <= 6 (thorough 12) the real hermes2go (-tags verif) is run once per printed range and the launched line indices (disp.launch hook) are validated: every line exactly once. Exhaustive to the bound, as the property quantifies.",
+   note="Trusted: TLC, parsing of 'a-b' tokens from stdout, fail-fast batch lines as observable launches. Overcounting of blank CRLF lines by the calculator is reported as information (ranges may extend past the last line; execution of non-empty lines is what is judged).", ref="§8 C17"),
 }
 NA_REASON = "check not built yet in this round (work in progress; design in DESIGN.md §8)"
 def main():
